@@ -11,6 +11,16 @@ NCPU = os.cpu_count() or 4
 GOENV = dict(os.environ, GOFLAGS='-mod=mod', GOPROXY='off', GOSUMDB='off', GOTOOLCHAIN='local')
 
 
+def parallel_jvms(heap_gb):
+    """how many validation JVMs (each allowed heap_gb of heap) to run side by side: all cores, unless the memory that is
+    available right now would not hold them (other checks may be running on the same machine)"""
+    try:
+        avail = [int(l.split()[1]) for l in open('/proc/meminfo') if l.startswith('MemAvailable:')][0] // (1024 * 1024)
+    except Exception:
+        return NCPU
+    return max(2, min(NCPU, (avail - 4) // heap_gb))
+
+
 def count_lines(path):
     n = 0
     with open(path, 'rb') as f:
@@ -224,7 +234,7 @@ class Ctx:
             d, lo, hi = job
             rc, out = self.tlc(d, module, cfg, workers=1, timeout=timeout, heap='3g')
             return job, rc, out
-        with ThreadPoolExecutor(max_workers=NCPU) as ex:
+        with ThreadPoolExecutor(max_workers=parallel_jvms(3)) as ex:
             results = list(ex.map(run, jobs))
         for (d, lo, hi), rc, out in results:
             m = re.search(r'<<\s*"VERIF-CONSUMED",\s*(\d+),\s*(\d+)\s*>>', out)
